@@ -15,6 +15,8 @@ pub enum Variant {
 pub enum Payload {
     U64,
     Slice,
+    /// one u64 in a #[repr(align(64))] struct
+    Wide,
 }
 
 #[derive(Clone, Copy, Debug, PartialEq, Eq, Hash, Serialize, Deserialize)]
@@ -115,7 +117,7 @@ const LOANS: [usize; 2] = [1, 2];
 const OVF: [bool; 2] = [true, false];
 const STRAT: [Strategy; 5] = [Strategy::Discard, Strategy::RetryThenDiscard, Strategy::RetryConsume, Strategy::RetryThenFail, Strategy::FollowDiscard];
 const QOS: [SubQos; 4] = [SubQos::Default, SubQos::SmallBuffer, SubQos::NoHistory, SubQos::OneHistory];
-const PAYLOAD: [Payload; 2] = [Payload::U64, Payload::Slice];
+const PAYLOAD: [Payload; 3] = [Payload::U64, Payload::Slice, Payload::Wide];
 const START: [Start; 3] = [Start::SubFirst, Start::PubFirst, Start::PubSends];
 const POP: [Populate; 2] = [Populate::One, Populate::All];
 
@@ -139,7 +141,7 @@ pub const RULE: &str = "configurations = greedy covering array (cover.rs) over t
 subscriber_max_buffer_size{1,2,3} x history_size{0,1,2} x subscriber_max_borrowed_samples{1,2} x max_loaned_samples{1,2} x \
 safe_overflow{on,off} x backpressure{DiscardData, RetryUntilDelivered+handler(retry twice, discard), RetryUntilDelivered+handler(the blocking subscriber \
 receives one sample, retry), RetryUntilDelivered+handler(retry, discard-and-fail), DiscardData+handler(follow strategy)} x subscriber-0 request{default, buffer_size(1), history_request(0), \
-history_request(1)} x subscriber-1 request{same 4} x payload{u64, [u64] slice len 1..3 static} x alphabet focus{delivery, subscriber \
+history_request(1)} x subscriber-1 request{same 4} x payload{u64, [u64] slice len 1..3 static, u64 in a 64-byte aligned struct} x alphabet focus{delivery, subscriber \
 churn, publisher churn[, full]} x start prefix{subscriber first, publisher first, publisher sends history+1 samples first} x \
 population{one port per role, all ports}: every valid PAIR of knob values occurs, and every valid combination of the interacting \
 groups overflow x buffer x history x subscriber-0 request, borrowed x buffer x overflow, loans x history x overflow, \
@@ -179,7 +181,7 @@ fn decode(t: &[usize], focuses: &[Focus], variant: Variant, max_creates: usize) 
 }
 
 fn knob_sizes(focuses: &[Focus]) -> Vec<usize> {
-    vec![2, 2, 3, 3, 2, 2, 2, 5, 4, 4, 2, focuses.len(), 3, 2]
+    vec![2, 2, 3, 3, 2, 2, 2, 5, 4, 4, 3, focuses.len(), 3, 2]
 }
 
 fn local_set(focuses: &[Focus], max_creates: usize) -> Vec<Cfg> {
